@@ -23,6 +23,8 @@ type FieldJ struct {
 	Type   *TypeJ      `json:"type"`
 	HasDef bool        `json:"has_def,omitempty"`
 	Def    interface{} `json:"def,omitempty"`
+	// what a freshly constructed object holds, when a check has replaced Def by another form of the default
+	CtorDef interface{} `json:"ctor_def,omitempty"`
 }
 
 type StructJ struct {
@@ -65,6 +67,9 @@ func (s *Schema) Export() *SchemaJ {
 			fj := &FieldJ{ID: f.ID, Name: f.Name, Req: int(f.Req), Type: exportType(f.Type), HasDef: f.HasDef}
 			if f.HasDef {
 				fj.Def = ToJSON(f.Type, f.Default)
+				if f.CtorDefault != nil && !Equal(f.CtorDefault, f.Default) {
+					fj.CtorDef = ToJSON(f.Type, f.CtorDefault)
+				}
 			}
 			sj.Fields = append(sj.Fields, fj)
 		}
@@ -119,6 +124,17 @@ func Import(j *SchemaJ) (*Schema, error) {
 					return nil, err
 				}
 				s.Structs[i].Fields[k].Default = v
+				s.Structs[i].Fields[k].CtorDefault = v
+				if fj.CtorDef != nil {
+					b, _ := json.Marshal(fj.CtorDef)
+					var raw2 interface{}
+					json.Unmarshal(b, &raw2)
+					cv, err := FromJSON(s.Structs[i].Fields[k].Type, raw2)
+					if err != nil {
+						return nil, err
+					}
+					s.Structs[i].Fields[k].CtorDefault = cv
+				}
 			}
 		}
 	}
